@@ -31,7 +31,7 @@ var c09Ops = []string{
 	"AtomicLevel.SetLevel", "AtomicLevel.Level", "AtomicLevel.Enabled", "AtomicLevel.ServeHTTP(GET)", "AtomicLevel.ServeHTTP(PUT)", "AtomicLevel.MarshalText",
 	"ReplaceGlobals", "L().Info", "S().Infow",
 	"Observer.All", "Observer.Len", "Observer.TakeAll", "Observer.Filter",
-	"slog.Info", "slog.With+WithGroup", "slog.Handler.WithAttrs+Handle",
+	"slog.Info", "slog.With+WithGroup", "slog.Handler.WithAttrs+Handle", "slog.PendingGroups.WithGroup", "slog.PendingGroups.WithAttrs",
 	"BWS.Write", "BWS.Sync", "BWS.Stop", "Locked.Write", "Locked.Sync",
 	"LazyChild.Info", "LazyChild.With", "yield",
 }
@@ -112,6 +112,8 @@ func c09Run(t interface{ Fatalf(string, ...any) }, p *c09Program) (sharedWriters
 	sg := shared.Sugar()
 	sl := slog.New(zapslog.NewHandler(shared.Core(), zapslog.WithCaller(true)))
 	slh := zapslog.NewHandler(shared.Core())
+	// a handler with several groups still pending (no attribute consumed them yet)
+	pending := slh.WithGroup("a").WithGroup("b").WithGroup("c")
 	if !p.Fresh {
 		// warm everything up before the goroutines start
 		shared.Info("warm")
@@ -224,6 +226,13 @@ func c09Run(t interface{ Fatalf(string, ...any) }, p *c09Program) (sharedWriters
 				case "slog.Handler.WithAttrs+Handle":
 					h := slh.WithAttrs([]slog.Attr{slog.Int("a", g)}).WithGroup("H")
 					_ = h.Handle(context.Background(), slog.NewRecord(time.Unix(1, 0), slog.LevelError, "i", 0))
+				case "slog.PendingGroups.WithGroup":
+					h := pending.WithGroup(fmt.Sprintf("g%d", g))
+					r := slog.NewRecord(time.Unix(1, 0), slog.LevelInfo, "i", 0)
+					r.AddAttrs(slog.Int("k", g))
+					_ = h.Handle(context.Background(), r)
+				case "slog.PendingGroups.WithAttrs":
+					_ = pending.WithAttrs([]slog.Attr{slog.Int("a", g)}).Handle(context.Background(), slog.NewRecord(time.Unix(1, 0), slog.LevelWarn, "i", 0))
 				case "BWS.Write":
 					_, _ = bws.Write([]byte("direct\n"))
 				case "BWS.Sync":
